@@ -369,7 +369,7 @@ class Queue(Greenlet):
                 groups.append((replies[i], group_env))
         return groups
 
-    def _retry_later(self, id, envelope, replies):
+    def _retry_later(self, id, envelope, replies, requeue=True):
         attempts = self.store.increment_attempts(id)
         wait = self.backoff(envelope, attempts)
         if wait is None:
@@ -381,9 +381,10 @@ class Queue(Greenlet):
         else:
             when = time.time() + wait
             self.store.set_timestamp(id, when)
-            self.active_ids.discard(id)
-            self._add_queued((when, id))
-            return True
+            if requeue:
+                self.active_ids.discard(id)
+                self._add_queued((when, id))
+            return when
 
     def _attempt(self, id, envelope, attempts):
         assert self.relay is not None
@@ -427,12 +428,17 @@ class Queue(Greenlet):
         if tempfails:
             rcpts, replies = zip(*tempfails)
             fail_env = envelope.copy(rcpts)
-            if not self._retry_later(id, fail_env, replies):
+            when = self._retry_later(id, fail_env, replies, requeue=False)
+            if when is False:
                 return
         else:
             self.store.remove(id)
             return
+        # Only re-queue once the delivered recipients are stored, otherwise
+        # the next attempt may fetch the message before they are.
         self.store.set_recipients_delivered(id, delivered)
+        self.active_ids.discard(id)
+        self._add_queued((when, id))
 
     def _dequeue(self, id):
         try:
